@@ -184,3 +184,369 @@ theorem assignOp_eq {env : MEnv} (hwf : WF env = true) {op : String} (hop : fina
         simp [hr, this]
 
 end Glom.C11
+
+namespace Glom.Mut
+open Glom
+
+/-! ### Part C: `_t_eval` over steps (with `*`) addresses exactly `matchesOf` -/
+
+theorem mro_has_object {env : MEnv} (hc : classesOK env = true) (c : String) :
+    "object" ∈ env.t.ct.mro c := by
+  simp only [classesOK, Bool.and_eq_true, List.all_eq_true] at hc
+  unfold ClassTable.mro
+  split
+  · rename_i m hf
+    have := hc.2 _ (List.mem_of_find?_eq_some hf)
+    simpa using this
+  · simp
+
+theorem getHandler_some {env : MEnv} (hc : classesOK env = true) (h : Heap) (cur : Val) :
+    ∃ hn, C01.getHandler env.t h cur = some hn := by
+  have hobj := mro_has_object hc (cur.clsName h)
+  simp only [classesOK, Bool.and_eq_true] at hc
+  obtain ⟨hreg, _⟩ := hc
+  unfold C01.getHandler
+  cases hr : List.findSome? (fun c =>
+      match List.find? (fun x => x.fst == c) env.t.getReg with
+      | some (_, hn) => if (hn == "False") = true then none else some hn
+      | none => none) (env.t.ct.mro (cur.clsName h)) with
+  | some hn => exact ⟨hn, rfl⟩
+  | none =>
+    exfalso
+    rw [List.findSome?_eq_none_iff] at hr
+    have h1 := hr "object" hobj
+    cases hf : List.find? (fun x => x.fst == "object") env.t.getReg with
+    | none => rw [hf] at hreg; contradiction
+    | some q =>
+      obtain ⟨qc, qh⟩ := q
+      rw [hf] at h1 hreg
+      simp only [bne_iff_ne, ne_eq] at hreg
+      simp [hreg] at h1
+
+end Glom.Mut
+
+namespace Glom.Mut
+open Glom
+
+/-- one access step of `fetch` is the step's reference access; failures are PathAccessErrors -/
+theorem fetch_access {env : MEnv} (hwf : C01.WF env.t = true) (hc : classesOK env = true) (h : Heap)
+    (op : String) (arg : Val) (rest : List Step) (k : Nat) (cur : Val)
+    (hw : C01.wfSteps [(op, arg)] = true) :
+    ∃ r, C01.refAccess env.t h op cur arg = some r ∧
+      fetch env h ((op, arg) :: rest) k cur =
+        match r with
+        | .ok v => fetch env h rest (k + 1) v
+        | .error e => .error (.pae k e) := by
+  obtain ⟨h1, h2, h3, _⟩ := C01.WF_parts hwf
+  obtain ⟨c1, hd1, hc1⟩ := C01.catches_dispatch h1
+  obtain ⟨c2, hd2, hc2⟩ := C01.catches_dispatch h2
+  obtain ⟨c3, hd3, hc3⟩ := C01.catches_dispatch h3
+  simp only [C01.wfSteps, Bool.and_true, Bool.and_eq_true, Bool.or_eq_true, beq_iff_eq] at hw
+  obtain ⟨hops, hargstr⟩ := hw
+  rcases hops with (rfl | rfl) | rfl
+  · simp at hargstr
+    split at hargstr
+    · rename_i n
+      refine ⟨pyGetattr h cur (.str n), by simp [C01.refAccess], ?_⟩
+      simp only [fetch, hd1, C01.accessOp]
+      cases hg : pyGetattr h cur (.str n) with
+      | ok v => simp
+      | error e =>
+        have := C01.pyGetattr_str_exc hg
+        subst this
+        simp [hc1 "AttributeError" (by simp), exc]
+    · contradiction
+  · refine ⟨pyGetitem h cur arg, by simp [C01.refAccess], ?_⟩
+    simp only [fetch, hd2, C01.accessOp]
+    cases hg : pyGetitem h cur arg with
+    | ok v => simp
+    | error e => rcases C01.pyGetitem_exc hg with rfl | rfl | rfl <;> simp [exc, hc2]
+  · obtain ⟨hn, hh⟩ := getHandler_some hc h cur
+    refine ⟨C01.applyHandler h hn cur arg, by simp [C01.refAccess, hh], ?_⟩
+    simp only [fetch, hd3, C01.accessOp, hh]
+    cases hg : C01.applyHandler h hn cur arg with
+    | ok v => simp
+    | error e =>
+      have := C01.applyHandler_exc hg
+      simp [hc3 e.cls this]
+
+end Glom.Mut
+
+namespace Glom.Mut
+open Glom
+
+/-! ### nested result lists: leaves and uniform depth -/
+
+mutual
+def Nest.leaves : Nest → List Val
+  | .leaf v => [v]
+  | .node xs => leavesL xs
+def leavesL : List Nest → List Val
+  | [] => []
+  | x :: xs => x.leaves ++ leavesL xs
+end
+
+mutual
+/-- every leaf sits below exactly `n` list levels -/
+def Nest.uniform : Nat → Nest → Bool
+  | 0, .leaf _ => true
+  | n + 1, .node xs => uniformL n xs
+  | _, _ => false
+def uniformL : Nat → List Nest → Bool
+  | _, [] => true
+  | n, x :: xs => x.uniform n && uniformL n xs
+end
+
+theorem leavesL_append (a b : List Nest) : leavesL (a ++ b) = leavesL a ++ leavesL b := by
+  induction a with
+  | nil => simp [leavesL]
+  | cons x xs ih => simp [leavesL, ih]
+
+theorem uniformL_append (n : Nat) (a b : List Nest) :
+    uniformL n (a ++ b) = (uniformL n a && uniformL n b) := by
+  induction a with
+  | nil => simp [uniformL]
+  | cons x xs ih => simp [uniformL, ih, Bool.and_assoc]
+
+theorem flatten1_spec (n : Nat) : ∀ xs, uniformL (n + 1) xs = true →
+    ∃ ys, flatten1 xs = .ok ys ∧ uniformL n ys = true ∧ leavesL ys = leavesL xs := by
+  intro xs
+  induction xs with
+  | nil => intro _; exact ⟨[], rfl, by simp [uniformL], rfl⟩
+  | cons x xs ih =>
+    intro hu
+    simp only [uniformL, Bool.and_eq_true] at hu
+    obtain ⟨ys, hy, hyu, hyl⟩ := ih hu.2
+    cases x with
+    | leaf v => simp [Nest.uniform] at hu
+    | node zs =>
+      have hz : uniformL n zs = true := by simpa [Nest.uniform] using hu.1
+      refine ⟨zs ++ ys, by simp [flatten1, hy], by simp [uniformL_append, hz, hyu], ?_⟩
+      simp [leavesL_append, leavesL, Nest.leaves, hyl]
+
+theorem flattenN_spec : ∀ (n : Nat) (xs : List Nest), uniformL n xs = true →
+    ∃ ys, flattenN n xs = .ok ys ∧ uniformL 0 ys = true ∧ leavesL ys = leavesL xs := by
+  intro n
+  induction n with
+  | zero => intro xs hu; exact ⟨xs, rfl, hu, rfl⟩
+  | succ n ih =>
+    intro xs hu
+    obtain ⟨ys, hy, hyu, hyl⟩ := flatten1_spec n xs hu
+    obtain ⟨zs, hz, hzu, hzl⟩ := ih ys hyu
+    exact ⟨zs, by simp [flattenN, hy, hz], hzu, by rw [hzl, hyl]⟩
+
+/-- apply `f` to the values in order, stopping at the first error -/
+def seqM (f : St → Val → St × Except MErr Unit) : St → List Val → St × Except MErr Unit
+  | st, [] => (st, .ok ())
+  | st, v :: r =>
+    match f st v with
+    | (st', .ok _) => seqM f st' r
+    | (st', .error e) => (st', .error e)
+
+theorem forEach_spec (f : St → Val → St × Except MErr Unit) : ∀ (ys : List Nest) (st : St),
+    uniformL 0 ys = true → forEach f st ys = seqM f st (leavesL ys) := by
+  intro ys
+  induction ys with
+  | nil => intro st _; rfl
+  | cons y ys ih =>
+    intro st hu
+    simp only [uniformL, Bool.and_eq_true] at hu
+    cases y with
+    | node zs => simp [Nest.uniform] at hu
+    | leaf v =>
+      simp only [forEach, leavesL, Nest.leaves, List.singleton_append, seqM]
+      cases hf : f st v with
+      | mk st' r =>
+        cases r with
+        | ok u => simp [ih st' hu.2]
+        | error e => simp
+
+/-- `_apply_for_each` on a result of the right depth calls `func` once per addressed object, in order -/
+theorem applyForEach_spec (layers : Nat) (nest : Nest) (f : St → Val → St × Except MErr Unit) (st : St)
+    (hu : nest.uniform layers = true) :
+    applyForEach layers nest f st = seqM f st nest.leaves := by
+  cases layers with
+  | zero =>
+    cases nest with
+    | leaf v =>
+      simp only [applyForEach, beq_self_eq_true, if_true, Nest.leaves, seqM]
+      cases hf : f st v with
+      | mk st' r => cases r <;> simp
+    | node xs => simp [Nest.uniform] at hu
+  | succ n =>
+    cases nest with
+    | leaf v => simp [Nest.uniform] at hu
+    | node xs =>
+      have hx : uniformL n xs = true := by simpa [Nest.uniform] using hu
+      obtain ⟨ys, hy, hyu, hyl⟩ := flattenN_spec n xs hx
+      simp only [applyForEach, Nat.add_sub_cancel, hy, Nest.leaves]
+      rw [forEach_spec f ys st hyu, hyl]
+      simp
+
+end Glom.Mut
+
+namespace Glom.Mut
+open Glom
+
+/-! ### below a wildcard: the frontier semantics, totalised -/
+
+/-- one access step on one object: the value, or nothing (dropped below a wildcard) -/
+def acc1 (env : MEnv) (h : Heap) (op : String) (arg : Val) (c : Val) : Option Val :=
+  match C01.refAccess env.t h op c arg with
+  | some (.ok v) => some v
+  | _ => none
+
+def advT (env : MEnv) (h : Heap) : List Step → List Val → List Val
+  | [], fr => fr
+  | (op, arg) :: rest, fr =>
+    if op == "x" then advT env h rest (fr.flatMap (children env h))
+    else advT env h rest (fr.filterMap (acc1 env h op arg))
+
+theorem advT_nil (env : MEnv) (h : Heap) : ∀ rest, advT env h rest [] = [] := by
+  intro rest
+  induction rest with
+  | nil => rfl
+  | cons s r ih => obtain ⟨op, arg⟩ := s; simp only [advT]; split <;> simpa using ih
+
+theorem advT_append (env : MEnv) (h : Heap) : ∀ rest a b,
+    advT env h rest (a ++ b) = advT env h rest a ++ advT env h rest b := by
+  intro rest
+  induction rest with
+  | nil => intro a b; rfl
+  | cons s r ih =>
+    obtain ⟨op, arg⟩ := s
+    intro a b
+    simp only [advT]
+    split
+    · rw [List.flatMap_append, ih]
+    · rw [List.filterMap_append, ih]
+
+theorem advT_flatMap (env : MEnv) (h : Heap) (rest : List Step) : ∀ fr,
+    advT env h rest fr = fr.flatMap (fun c => advT env h rest [c]) := by
+  intro fr
+  induction fr with
+  | nil => simp [advT_nil]
+  | cons c cs ih =>
+    rw [show c :: cs = [c] ++ cs from rfl, advT_append, ih]
+    simp
+
+theorem wfSteps_op {op : String} {arg : Val} (hw : C01.wfSteps [(op, arg)] = true) :
+    (op = "." ∨ op = "[" ∨ op = "P") ∧ op ≠ "x" ∧ op ≠ "X" := by
+  simp only [C01.wfSteps, Bool.and_true, Bool.and_eq_true, Bool.or_eq_true, beq_iff_eq] at hw
+  rcases hw.1 with (rfl | rfl) | rfl <;> simp
+
+theorem stepAll_eq {env : MEnv} (hc : classesOK env = true) (h : Heap) {op : String} {arg : Val}
+    (hw : C01.wfSteps [(op, arg)] = true) : ∀ fr,
+    stepAll env h op arg fr = some (fr.filterMap (acc1 env h op arg)) := by
+  intro fr
+  induction fr with
+  | nil => rfl
+  | cons c cs ih =>
+    have hsome : ∃ r, C01.refAccess env.t h op c arg = some r := by
+      rcases (wfSteps_op hw).1 with rfl | rfl | rfl
+      · exact ⟨pyGetattr h c arg, by simp [C01.refAccess]⟩
+      · exact ⟨pyGetitem h c arg, by simp [C01.refAccess]⟩
+      · obtain ⟨hn, hh⟩ := getHandler_some hc h c
+        exact ⟨C01.applyHandler h hn c arg, by simp [C01.refAccess, hh]⟩
+    obtain ⟨r, hr⟩ := hsome
+    simp only [stepAll, hr, List.filterMap_cons, acc1, ih]
+    cases r <;> simp
+
+theorem advance_eq {env : MEnv} (hc : classesOK env = true) (h : Heap) : ∀ rest fr,
+    wfStar rest = true → advance env h rest fr = .ok (advT env h rest fr) := by
+  intro rest
+  induction rest with
+  | nil => intro fr _; rfl
+  | cons s r ih =>
+    obtain ⟨op, arg⟩ := s
+    intro fr hw
+    simp only [wfStar, Bool.and_eq_true, Bool.or_eq_true, beq_iff_eq] at hw
+    simp only [advance, advT]
+    by_cases hx : op = "x"
+    · subst hx; simp [ih _ hw.2]
+    · have hws : C01.wfSteps [(op, arg)] = true := by
+        rcases hw.1 with h1 | h1
+        · exact absurd h1 hx
+        · exact h1
+      have hop := (wfSteps_op hws).1
+      have : (op == "." || op == "[" || op == "P") = true := by
+        rcases hop with rfl | rfl | rfl <;> simp
+      simp [hx, this, stepAll_eq hc h hws, ih _ hw.2]
+
+theorem stars_cons_x (arg : Val) (rest : List Step) : stars (("x", arg) :: rest) = stars rest + 1 := by
+  simp [stars]
+
+theorem stars_cons_acc {op : String} {arg : Val} (rest : List Step) (h1 : op ≠ "x") (h2 : op ≠ "X") :
+    stars ((op, arg) :: rest) = stars rest := by
+  simp [stars, h1, h2]
+
+/-- the outcome of `fetch` for one child below a wildcard -/
+def BelowOK (env : MEnv) (h : Heap) (rest : List Step) (r : Except MErr Nest) (c : Val) : Prop :=
+  (∃ nest, r = .ok nest ∧ nest.uniform (stars rest) = true ∧ nest.leaves = advT env h rest [c]) ∨
+  (∃ k e, r = .error (.pae k e) ∧ advT env h rest [c] = [])
+
+theorem collect_spec (env : MEnv) (h : Heap) (rest : List Step) (g : Val → Except MErr Nest) :
+    ∀ cs : List Val, (∀ c ∈ cs, BelowOK env h rest (g c) c) →
+    ∃ ns, collect (cs.map g) = .ok ns ∧ uniformL (stars rest) ns = true ∧
+      leavesL ns = cs.flatMap (fun c => advT env h rest [c]) := by
+  intro cs
+  induction cs with
+  | nil => intro _; exact ⟨[], rfl, by simp [uniformL], by simp [leavesL]⟩
+  | cons c cs ih =>
+    intro hall
+    obtain ⟨ns, hns, hu, hl⟩ := ih (fun c' hc' => hall c' (List.mem_cons_of_mem _ hc'))
+    rcases hall c (by simp) with ⟨nest, hg, hnu, hnl⟩ | ⟨k, e, hg, hnil⟩
+    · exact ⟨nest :: ns, by simp [collect, hg, hns], by simp [uniformL, hnu, hu],
+        by simp [leavesL, hnl, hl]⟩
+    · exact ⟨ns, by simp [collect, hg, hns], hu, by simp [hl, hnil]⟩
+
+theorem fetch_star_eq {env : MEnv} (hx : C01.dispatchOf env.t "x" = some ("star", [])) (h : Heap)
+    (arg : Val) (rest : List Step) (k : Nat) (cur : Val) (hs : isScope env h cur = false) :
+    fetch env h (("x", arg) :: rest) k cur =
+      match collect ((children env h cur).map (fun c => fetch env h rest 0 c)) with
+      | .ok ns => .ok (.node ns)
+      | .error e => .error e := by
+  simp only [fetch, hx, hs]
+  cases collect ((children env h cur).map (fun c => fetch env h rest 0 c)) <;> simp
+
+/-- **below a wildcard**: each child either contributes the (nested) results of the rest of the
+    path, or is dropped with a PathAccessError — never anything else -/
+theorem fetch_below {env : MEnv} (hwf : C11.WF env = true) (hc : classesOK env = true) (h : Heap)
+    (hsc : ∀ c, isScope env h c = false) : ∀ (rest : List Step), wfStar rest = true →
+    ∀ (k : Nat) (c : Val), BelowOK env h rest (fetch env h rest k c) c := by
+  obtain ⟨hwf1, hx, _, _, _, _⟩ := C11.WF_parts hwf
+  intro rest
+  induction rest with
+  | nil => intro _ k c; exact .inl ⟨.leaf c, rfl, by simp [stars, Nest.uniform], by simp [Nest.leaves, advT]⟩
+  | cons s r ih =>
+    obtain ⟨op, arg⟩ := s
+    intro hw k c
+    simp only [wfStar, Bool.and_eq_true, Bool.or_eq_true, beq_iff_eq] at hw
+    by_cases hxo : op = "x"
+    · subst hxo
+      obtain ⟨ns, hns, hu, hl⟩ := collect_spec env h r (fun c' => fetch env h r 0 c') (children env h c)
+        (fun c' _ => ih hw.2 0 c')
+      refine .inl ⟨.node ns, ?_, ?_, ?_⟩
+      · rw [fetch_star_eq hx h arg r k c (hsc c), hns]
+      · rw [stars_cons_x]; simpa [Nest.uniform] using hu
+      · simp only [Nest.leaves, hl, advT, beq_self_eq_true, if_true, List.flatMap_cons,
+          List.flatMap_nil, List.append_nil]
+        exact (advT_flatMap env h r _).symm
+    · have hws : C01.wfSteps [(op, arg)] = true := by
+        rcases hw.1 with h1 | h1
+        · exact absurd h1 hxo
+        · exact h1
+      obtain ⟨r', hr, hf⟩ := fetch_access hwf1 hc h op arg r k c hws
+      have hst := stars_cons_acc (arg := arg) r hxo (wfSteps_op hws).2.2
+      have hadv : advT env h ((op, arg) :: r) [c] = advT env h r ([c].filterMap (acc1 env h op arg)) := by
+        simp [advT, hxo]
+      cases r' with
+      | ok v =>
+        have h1 : [c].filterMap (acc1 env h op arg) = [v] := by simp [acc1, hr]
+        simp only [BelowOK, hf, hst, hadv, h1]
+        exact ih hw.2 (k + 1) v
+      | error e =>
+        have h1 : [c].filterMap (acc1 env h op arg) = [] := by simp [acc1, hr]
+        exact .inr ⟨k, e, hf, by rw [hadv, h1, advT_nil]⟩
+
+end Glom.Mut
